@@ -1556,6 +1556,8 @@ class Interp:
 
     def policy(self, qual):
         c = self.cur_contract
+        if c is not None and qual in getattr(c, 'alias', {}):
+            return 'contract'
         if c is not None:
             if qual in c.inline:
                 return 'inline'
